@@ -68,6 +68,8 @@ REGRESSION = [      # inputs of test/test_crashes.py (issues 22, numpy poly1d, P
     b"(]\x94(K\x01e(K\x02eh\x00l.", b"}\x94(K\x01K\x02u(K\x03K\x04uh\x00\x86.", b"\x80\x04\x8f\x94(K\x01\x90(K\x02\x90h\x00\x86.",
     b"]\x94(K\x01e(K\x02e(K\x03eh\x00\x85\x94h\x00h\x01\x86.",
     pickle.dumps([list(range(1002))] * 2, 2), pickle.dumps({"a": list(range(2001)), "b": None}, 4),
+    # a container handed to a call and afterwards made to hold the call's own result (known finding KF-C05-arg-holds-own-result)
+    b"}2Q\x94K\x01s0N.", bytes.fromhex("8c0474696d65950000000000000000953c000000000000004e6374696d650a74696d650a8f7d3251948f636275696c74696e730a676574617474720a8670350a73636275696c74696e730a676574617474720a2e"),
     b"cverif_sink\nfrozenset\n(K\x01\x91.", b"cverif_sink\nfrozenset\n(K\x01\x91\x85R.",
 ]
 SHADOWMODS = ["collections", "importlib", "gzip", "datetime", "functools", "string"]
